@@ -674,18 +674,11 @@ def bounds_rule(ctx):
         ctx.ob('BOUNDS', 'SliceRead::read_slice', False, None, 'anchor not found')
     else:
         ctx.touched(b)
-        sp = [(bb, t) for bb, t in b.calls() if call_matches(t, ['slice::<impl [T]>::split_at'])]
+        sp = [(bb, t) for bb, t in b.calls() if call_matches(t, SPLIT_AT)]
         ok = bool(sp)
         for bb, t in sp:
-            g_ok = False
             no = origin(b, t['args'][1])
-            for g in cmp_guards(b, bb):
-                if g['op'] == 'Le' and g['l'].params() == no.params() and 'len' in g['r'].flags and 'slice' in g['r'].fields:
-                    if all(all_paths_err(b, s) for s in g['other']):
-                        g_ok = True
-                if g['op'] == 'Ge' and g['r'].params() == no.params() and 'len' in g['l'].flags and 'slice' in g['l'].fields:
-                    if all(all_paths_err(b, s) for s in g['other']):
-                        g_ok = True
+            g_ok = split_is_bounded(b, bb, t, need_slice_field=True) and 'slice' in origin(b, t['args'][0]).fields
             ok = ok and g_ok and no.params() == {2} and not no.has_arith()
         ctx.ob('BOUNDS', 'SliceRead::read_slice', ok, short_loc(b.span), 'split_at(n) dominated by n <= slice.len(), other edge returns Err: %s' % ok)
     b = fn_by_label(f, '<de::read::SliceRead as de::read::Read>::skip_bytes')
@@ -701,15 +694,10 @@ def bounds_rule(ctx):
         ctx.ob('BOUNDS', 'SliceRead::take', False, None, 'anchor not found')
     else:
         ctx.touched(b)
-        sp = [(bb, t) for bb, t in b.calls() if call_matches(t, ['slice::<impl [T]>::split_at'])]
+        sp = [(bb, t) for bb, t in b.calls() if call_matches(t, SPLIT_AT)]
         ok = bool(sp)
         for bb, t in sp:
-            no = origin(b, t['args'][1])
-            g_ok = False
-            for g in cmp_guards(b, bb):
-                if g['op'] == 'Le' and g['l'].params() == no.params() and 'len' in g['r'].flags:
-                    g_ok = all(all_paths_err(b, s) for s in g['other'])
-            ok = ok and g_ok
+            ok = ok and split_is_bounded(b, bb, t)
         ctx.ob('BOUNDS', 'SliceRead::take', ok, short_loc(b.span), 'split_at(block_size) dominated by block_size <= len: %s' % ok)
 
 
